@@ -105,7 +105,14 @@ def run(ctx):
     n = ctx.n(700, 100000)
     sweep = [p_ for p_ in range(0, 70) for _ in range(6)] if ctx.shard == 0 else []
     pool = {}
+    import os
+    old_tz = os.environ.get('TZ')
+    zones = ['UTC', 'JST-9', 'NST3:30', 'PST8PDT']       # POSIX TZ strings (no tz database needed)
     for i in range(n + len(sweep)):
+        # the process's local time zone is no input of the property (requested instants are naive = UTC or aware)
+        os.environ['TZ'] = zones[(i // 7) % len(zones)]
+        time.tzset()
+        ctx.klass('local-time-zone-' + os.environ['TZ'])
         ik = rng.choice(KINDS)
         sk = rng.choice(KINDS)
         key_name = gen.simple_name(rng, 0, 4) + [rc.comp(8, b'KEY'), rc.comp(8, gen.rand_bytes(rng, rng.choice([1, 4, 8])))]
@@ -200,7 +207,13 @@ def run(ctx):
     seen = {k for k in ctx.classes if k.startswith('siglen-ecdsa256-')}
     ctx.extra['ecdsa256_der_lengths_seen'] = sorted(int(k.rsplit('-', 1)[1]) for k in seen)
     ctx.need_class_prefix('siglen-ecdsa256-', 2)
+    if old_tz is None:
+        os.environ.pop('TZ', None)
+    else:
+        os.environ['TZ'] = old_tz
+    time.tzset()
     ctx.need_event('cert-checked')
+    ctx.need_class('local-time-zone-JST-9')
     ctx.need_event('signer-reused-with-new-locator')
     ctx.assumptions = ['self_sign/sign_req read the real clock (datetime.now is not patchable): their instants are checked within 5 s',
                        'non-UTC aware datetimes and years < 1000 are outside the generated domain']
